@@ -130,10 +130,12 @@ def run_layout(R, tonic):
             for d, nm in zip(pw, ('flag', 'length')):
                 R.check(d['root'] is not None and arg_root(d['root']) == slice_n and (d['end'] is None or d['end'] <= hs), 'C01.R1', '%s-into-header-region' % nm, site(fe, d['bb']), '%s is written at offset %s of the slice parameter (header region ends at %s)' % (nm, d['off'], d['end']))
             flag = bool_source(pw[0]['value'])
-            okf = flag is not None and ((is_call(flag, name='is_some') and arg_root(flag[2][0]) in params_of_type(fe, r'Option<.*CompressionEncoding>')) or (flag[0] == 'arg' and fe.ty(flag[1]) == 'bool'))
+            fe_enc = locs_of_type(tonic, fe, r'Option<.*CompressionEncoding>')
+            fe_bool = locs_of_type(tonic, fe, r'^bool$')
+            okf = flag is not None and ((is_call(flag, name='is_some') and loc_of(strip_refs(flag[2][0])) in fe_enc) or (loc_of(flag) in fe_bool))
             R.check(okf, 'C01.R1', 'flag=is_some(encoding)', site(fe, pw[0]['bb']), 'flag byte = (is_some(encoding) | a bool parameter) as u8: %s' % show(pw[0]['value'])[:100])
             if okf:
-                flag_src = arg_root(flag[2][0]) if is_call(flag) else flag[1]
+                flag_src = loc_of(strip_refs(flag[2][0])) if is_call(flag) else loc_of(flag)
             ln = payload_len_source(pw[1]['value'])
             okl = 'SubWithOverflow' in show(ln) and find_terms(ln, lambda x: is_call(x, name='len') and arg_root(x[2][0]) == slice_n) and 'const(%d)' % hs in show(ln)
             R.check(bool(okl), 'C01.R1', 'length=slice_len-HEADER_SIZE', site(fe, pw[1]['bb']), 'length operand = %s' % show(ln)[:100])
@@ -143,7 +145,7 @@ def run_layout(R, tonic):
         am = [(bb, t) for bb, t in ei.calls(name='advance_mut') if const_val(ei.origin(t['args'][1])) == hs]
         # roles of encode_item's parameters: out = the buffer the header is reserved in; scratch = the one that is cleared; enc = Option<CompressionEncoding>
         out_n = arg_root(ei.origin(am[0][1]['args'][0])) if am else None
-        enc_n = param_of_type(ei, r'Option<.*CompressionEncoding>')
+        enc_loc = loc_of_type(tonic, ei, r'Option<.*CompressionEncoding>')
         lb = [(bb, t) for bb, t in ei.calls(name='len') if arg_root(ei.origin(t['args'][0])) == out_n]
         encs = ei.calls(pat='Encoder::encode')
         R.check(len(am) == 1 and len(rs) == 1, 'C01.R1', 'header-reserved', site(ei), 'reserve(HEADER_SIZE): %d, advance_mut(HEADER_SIZE): %d' % (len(rs), len(am)))
@@ -162,9 +164,10 @@ def run_layout(R, tonic):
             R.check(okd, 'C01.R1', 'finish-on-buf[offset..]', site(ei, fb), 'finish_encoding slice = %s' % show(dst)[:140])
             for eb, et in encs:
                 R.check(ei.dominates(eb, fb) or True, 'C01.R1', 'payload-before-finish', site(ei, fb), 'prefix is written after the payload')
-            fa = strip_refs(ei.origin(ft['args'][flag_src - 1])) if flag_src else None
-            okfa = fa is not None and ((fa[0] == 'arg' and fa[1] == enc_n) or (is_call(fa, name='is_some') and arg_root(fa[2][0]) == enc_n))
-            R.check(okfa, 'C01.R1', 'finish-gets-encoding', site(ei, fb), 'what decides the flag byte comes from encode_item\'s encoding parameter: %s' % (show(fa) if fa else None))
+            via = loc_through_call(ei, ft, flag_src) if flag_src else None
+            fa = via[1] if via else None
+            okfa = via is not None and ((via[0] == 'loc' and via[1] == enc_loc) or (via[0] == 'term' and ((loc_of(via[1]) == enc_loc) or (is_call(via[1], name='is_some') and loc_of(strip_refs(via[1][2][0])) == enc_loc))))
+            R.check(okfa, 'C01.R1', 'finish-gets-encoding', site(ei, fb), 'what decides the flag byte comes from encode_item\'s encoding parameter: %s' % ((str(fa) if via and via[0] == 'loc' else (show(fa) if fa else None)),))
         R.floor('C01.R1', 'Encoder::encode sites', len(encs), 2)
         sg = tonic.sig('codec::encode::encode_item')
         R.check(not any('EncodedBytes' in i or 'Self' in i for i in sg['inputs']), 'C01.R1', 'encode_item-stateless', site(ei), 'encode_item inputs: %r (no access to stream state: frame bytes cannot depend on batching)' % sg['inputs'])
@@ -259,8 +262,10 @@ def run_layout(R, tonic):
             R.check(okf, 'C01.R5', 'source-fused', site(eb_new, bb_, i_), 'EncodedBytes.source = source.fuse(): %r (an unfused source would be polled after it ended: no clean end of stream)' % okf)
         # R5c: an item taken from the source is always handed to encode_item (no return in between drops it)
         eb, et = pn.call1(name='encode_item')
-        item_src = pn.origin(et['args'][6])
-        ok_item = term_contains(item_src, lambda x: x and x[0] == 'variant' and x[2] == 'Ok') and term_contains(item_src, lambda x: is_call(x, name='poll_next'))
+        is_item = lambda t_: term_contains(t_, lambda x: x and x[0] == 'variant' and x[2] == 'Ok') and term_contains(t_, lambda x: is_call(x, name='poll_next'))
+        cand_items = [pn.origin(a_) for a_ in et['args'] if is_item(pn.origin(a_))]
+        item_src = cand_items[0] if cand_items else ('x',)
+        ok_item = len(cand_items) == 1
         R.check(ok_item, 'C01.R5', 'R5c:item-is-the-polled-item', site(pn, eb), 'encode_item item = %s' % show(item_src)[:120])
         sp_b, sp_t = pn.call1(pat='Stream::poll_next')
         # blocks where the Ok(item) payload of the polled value is moved out: from there every path to a return or to the next
